@@ -30,6 +30,14 @@ CLAIMED = {
         text="C07_decoder_is_reference: for every buffer the in-place decoder of crate cobs (modelled index by index on one buffer, every access checked) computes exactly the reference COBS decoding of the first frame, fails exactly when a code byte points past the frame, keeps the buffer length and leaves everything from the frame end on untouched (invariant: the write index trails the read index); C07_take_from_bytes_cobs / C07_from_bytes_cobs: the entry points equal reference-decode-then-plain-decode with the remainder starting right after the sentinel; C07_total: never Panic/Fault/out-of-fuel on any bytes. Direct oracle: independent COBS decoder + plain decoder on exhaustive strings over a code-byte alphabet, corruptions and truncations, buffers flush against guard pages.",
         note=NOTE + "crate cobs 0.2.3 decode_in_place / decode_in_place_report (transcribed from dec.rs, compared on every case)",
         design="5 (C07)"),
+    'C08': dict(
+        text="C08_every_chunking: for EVERY list of chunks (the chunking is universally quantified), capacity and target type, driving the documented feed loop chunk by chunk reports exactly the events of a byte-stream reference semantics on the concatenation and leaves exactly its tail buffered, provided every segment and the tail fit; C08_one_result_per_frame / C08_exactly_once: on a stream of zero-terminated segments that is one result per zero byte in order, equal to decoding each segment in isolation; C08_conservation: remainder = tail of the chunk. Correspondence: every feed call of every explored chunking compared with the model including the implementation's buffered bytes (cfg hook); exhaustive chunkings of short streams.",
+        note=NOTE + "from_bytes_cobs is the C07-verified model; const-generic capacities instantiated finitely in the harness",
+        design="5 (C08)"),
+    'C09': dict(
+        text="C09_feed_total (no panic / out-of-range slice for any state and input, capacity preserved), C09_reset_after_zero (initial state after every zero byte; remainder = what follows it), C09_overflow_reported (an over-long segment yields an OverFull event under every chunking), C09_loop_terminates (the documented loop never exhausts 2*len+2 iterations for capacity >= 1) and C09_capacity_zero_stalls (why >= 1). Correspondence and direct oracles on streams with over-long segments, garbage, capacity = frame-1/frame/frame+1, exhaustive chunkings.",
+        note=NOTE + "as C08",
+        design="5 (C09)"),
     'C10': dict(
         text="C10_output (frame = plain ++ le(crc(plain))), C10_roundtrip, C10_accept_sound (whatever CRC-checked decoding accepts: consumed bytes followed by their correct checksum, value and length those of plain decoding; by simulation of the CRC modifier with a consumption-tracking slice), C10_checksum_pinned, C10_crc_bound. The burst-error theorem is not proved (partial); the harness applies every single-bit flip and bursts <= width in the algorithm's bit order to every sampled frame and recomputes checksums with an independent bitwise CRC for 10 catalogue algorithms.",
         note=NOTE + "crate crc (table-driven Digest) as the bitwise Rocksoft model, compared on every frame",
